@@ -206,9 +206,10 @@ PREFIX = S.REQ_ALL
 # ---------------------------------------------------------------------------------------------
 # require structures: which capability strings load what, in every list shape
 
-REQ_NAMES = ['"fileinto"', '"copy"', '"imap4flags"', '"Fileinto"', '" fileinto"', '"copy\t"', '"nosuch"', '""']
+REQ_NAMES = ['"fileinto"', '"copy"', '"imap4flags"', '"Fileinto"', '" fileinto"', '"copy\t"', '"nosuch"', '""', '"vacation-seconds"', '"vacation"']
 REQ_USES = [("fileinto", "STR", ";"), ("fileinto", ":copy", "STR", ";"), ("keep", ":flags", "STR", ";"), ("keep", ";"),
-            ("if", "hasflag", "STR", "{", "fileinto", "STR", ";", "}"), ("redirect", ":copy", "STR", ";")]
+            ("if", "hasflag", "STR", "{", "fileinto", "STR", ";", "}"), ("redirect", ":copy", "STR", ";"),
+            ("vacation", ":seconds", "NUM", "STR", ";"), ("vacation", "STR", ";")]
 
 
 def _req_cmds(maxnames):
